@@ -130,7 +130,42 @@ func withoutReferences(b []byte) []byte {
 	return out
 }
 
+// libAlone runs the schema library ALONE on one body (no repository code): load, check, use as a type of another schema,
+// example.  It returns the first error text that is a Go runtime fault ("runtime error: ..."), or "-".
+func libAlone(body []byte) (out string) {
+	defer func() {
+		if r := recover(); r != nil {
+			out = fmt.Sprint(r)
+		}
+	}()
+	fault := func(err error) string {
+		if err != nil && strings.Contains(err.Error(), "runtime error") {
+			return err.Error()
+		}
+		return ""
+	}
+	s := jschema.New("@probe", body)
+	if _, err := s.UsedUserTypes(); fault(err) != "" {
+		return fault(err)
+	}
+	if f := fault(s.Check()); f != "" {
+		return f
+	}
+	o := jschema.New("@other", "{}")
+	if f := fault(o.AddType("@probe", s)); f != "" {
+		return f
+	}
+	if f := fault(o.Check()); f != "" {
+		return f
+	}
+	if _, err := s.Example(); fault(err) != "" {
+		return fault(err)
+	}
+	return "-"
+}
+
 func init() {
+	fnExtra["libalone"] = func(a []string) string { return hxs(libAlone(unhex(a[0]))) }
 	fnExtra["lex"] = func(a []string) string { return lexStream(unhex(a[0])) }
 	// the schema-library oracle used by the model runner (never calls repository code)
 	commands["oracle"] = func([]string) {
